@@ -177,6 +177,56 @@ theorem tm_noEquivocation (env : C12.Env) (node : Nat) : NoEquivocation (tmMachi
     simp only [C12.Action.bcastPrecommit.injEq, C12.Vote.mk.injEq] at this
     exact hid this.2.2.2
 
+/-! ## The machine without the `TriggerSync` actions votes the same -/
+
+theorem votes_filter_sync (acts : List Action) :
+    votesOf (effectsOf true (acts.filter (fun a => !a.isSync))) = votesOf (effectsOf true acts) := by
+  induction acts with
+  | nil => rfl
+  | cons a rest ih =>
+    cases a <;>
+      simp_all [Action.isSync, effectsOf, votesOf, Effect.vote?, List.filter, List.filterMap]
+
+theorem quiet_replayStep (env : C12.Env) (node : Nat) (m : C12.Machine) (e : Entry) :
+    (replayStep (tmMachineQuiet env node) m e).1 = (replayStep (tmMachine env node) m e).1 ∧
+    votesOf (effectsOf true (replayStep (tmMachineQuiet env node) m e).2) =
+      votesOf (effectsOf true (replayStep (tmMachine env node) m e).2) := by
+  have hh : (tmMachineQuiet env node).height m = (tmMachine env node).height m := rfl
+  simp only [replayStep, hh]
+  split
+  · exact ⟨rfl, rfl⟩
+  · exact ⟨rfl, votes_filter_sync _⟩
+
+theorem quiet_replayRun (env : C12.Env) (node : Nat) (L : List Entry) (m : C12.Machine) :
+    (replayRun (tmMachineQuiet env node) m L).1 = (replayRun (tmMachine env node) m L).1 ∧
+    votesOf (replayRun (tmMachineQuiet env node) m L).2 =
+      votesOf (replayRun (tmMachine env node) m L).2 := by
+  induction L generalizing m with
+  | nil => exact ⟨rfl, rfl⟩
+  | cons e L ih =>
+    obtain ⟨h1, h2⟩ := quiet_replayStep env node m e
+    simp only [replayRun, votesOf_append, h2]
+    rw [h1]
+    exact ⟨(ih _).1, by rw [(ih _).2]⟩
+
+theorem quiet_replayOK (env : C12.Env) (node : Nat) (L : List Entry) (m : C12.Machine)
+    (h : ReplayOK (tmMachineQuiet env node) m L) : ReplayOK (tmMachine env node) m L := by
+  induction L generalizing m with
+  | nil => trivial
+  | cons e L ih =>
+    obtain ⟨h1, h2⟩ := h
+    rw [(quiet_replayStep env node m e).1] at h2
+    exact ⟨h1, ih _ h2⟩
+
+/-- juno's machine without the `TriggerSync` actions never equivocates either. -/
+theorem tmQuiet_noEquivocation (env : C12.Env) (node : Nat) :
+    NoEquivocation (tmMachineQuiet env node) := by
+  intro h L hok v w hv hw
+  have e1 : (tmMachineQuiet env node).init h = (tmMachine env node).init h := rfl
+  rw [e1] at hok hv hw
+  rw [(quiet_replayRun env node L _).2] at hv hw
+  exact tm_noEquivocation env node h L (quiet_replayOK env node L _ hok) v w hv hw
+
 /-! ## Witnesses on the transcription of juno's machine: what it does NOT satisfy -/
 
 /-- 4 equal validators, validator 1 proposes, every value valid; node 4. -/
@@ -188,19 +238,72 @@ def tmS0 : C12.Machine := (tm4.step (tm4.init 1) .start).1
 def tmS1 : C12.Machine := (tm4.step tmS0 (.precommit 3 0 1 (some 9))).1
 def tmS2 : C12.Machine := (tm4.step tmS1 (.precommit 3 0 2 (some 9))).1
 
-/-- (F4) The precommit that completes a quorum of a FUTURE height: the call returns only
-`TriggerSync` — no log entry — although the vote is counted (a second delivery is a duplicate). -/
-theorem tm_future_quorum_precommit_not_logged :
-    (tm4.step tmS2 (.precommit 3 0 3 (some 9))).2 = [Action.triggerSync 1 3] ∧
-    (tm4.step (tm4.step tmS2 (.precommit 3 0 3 (some 9))).1 (.precommit 3 0 3 (some 9))).2 = [] := by
+/-- The CURRENT machine (since b154634): the precommit that completes a quorum of a FUTURE height
+is logged first, then the sync is triggered. -/
+theorem tm_future_quorum_precommit_logged :
+    (tm4.step tmS2 (.precommit 3 0 3 (some 9))).2 =
+      [Action.writeWAL (.precommit 3 0 3 (some 9)), Action.triggerSync 1 3] := by
   decide
 
-/-- Hence the machine (as it is in /repo today) satisfies the hypotheses for NO notion of state
-equivalence: an accepted input with actions that is not logged. -/
-theorem tm_not_replaySafe_upTo (r : Setoid C12.Machine) : ¬ ReplaySafeUpTo tm4 r := fun hs => by
+def tm4Old : Machine C12.Machine := tmMachineBefore_b154634 env4 4
+
+/-- REGRESSION WITNESS (F4, fixed in b154634) on the variant of the machine before the fix: the
+call returns only `TriggerSync` — no log entry — although the vote is counted (a second delivery is
+a duplicate). -/
+theorem tm_future_quorum_precommit_not_logged_before_b154634 :
+    (tm4Old.step tmS2 (.precommit 3 0 3 (some 9))).2 = [Action.triggerSync 1 3] ∧
+    (tm4Old.step (tm4Old.step tmS2 (.precommit 3 0 3 (some 9))).1 (.precommit 3 0 3 (some 9))).2 = [] := by
+  decide
+
+/-- Hence the machine before b154634 satisfied the hypotheses for NO notion of state equivalence. -/
+theorem tm_not_replaySafe_upTo_before_b154634 (r : Setoid C12.Machine) :
+    ¬ ReplaySafeUpTo tm4Old r := fun hs => by
   have h := hs.logged_or_inert tmS2 (.precommit 3 0 3 (some 9)) (Or.inl (by decide))
-  have ha := tm_future_quorum_precommit_not_logged.1
+  have ha := tm_future_quorum_precommit_not_logged_before_b154634.1
   rcases h with ⟨_, h2⟩ | ⟨e', rest, h2, _⟩ <;> (rw [ha] at h2; cases h2)
+
+/-! ### What still stands between juno's machine and `ReplaySafeUpTo` (after b154634) -/
+
+def w1 : C12.Machine := (tm4.step tmS0 (.proposal 1 0 1 (-1) 7)).1
+def w2 : C12.Machine := (tm4.step w1 (.prevote 1 0 1 (some 7))).1
+def w3 : C12.Machine := (tm4.step w2 (.prevote 1 0 2 (some 7))).1
+def w4 : C12.Machine := (tm4.step w3 (.precommit 1 0 1 (some 7))).1
+def w5 : C12.Machine := (tm4.step w4 (.precommit 3 0 1 (some 9))).1
+def w6 : C12.Machine := (tm4.step w5 (.precommit 3 0 2 (some 9))).1
+/-- completes the precommit quorum of the FUTURE height 3 -/
+def eA : Entry := .precommit 3 0 3 (some 9)
+/-- completes the precommit quorum of the CURRENT height 1: commit -/
+def eB : Entry := .precommit 1 0 2 (some 7)
+def wab : C12.Machine := (replayStep tm4 (replayStep tm4 w6 eA).1 eB).1
+def wba : C12.Machine := (replayStep tm4 (replayStep tm4 w6 eB).1 eA).1
+/-- start the next height, then three precommits for height 5: what does the third one return? -/
+def syncProbe (m : C12.Machine) : List Action :=
+  (tm4.step (tm4.step (tm4.step (tm4.step m .start).1 (.precommit 5 0 1 (some 3))).1
+    (.precommit 5 0 2 (some 3))).1 (.precommit 5 0 3 (some 3))).2
+
+/-- The sync bookkeeping is visible in the ARGUMENTS of `TriggerSync` and depends on whether the
+quorum-completing future precommit was processed before or after the commit (live order vs the
+height-sorted replay order): `TriggerSync 4 5` vs `TriggerSync 2 5`. -/
+theorem tm_sync_bookkeeping_depends_on_order :
+    syncProbe wab = [Action.writeWAL (.precommit 5 0 3 (some 3)), Action.triggerSync 4 5] ∧
+    syncProbe wba = [Action.writeWAL (.precommit 5 0 3 (some 3)), Action.triggerSync 2 5] := by
+  decide
+
+/-- Hence `ReplaySafeUpTo (tmMachine …) r` is false for EVERY bisimulation `r` that must preserve
+the full action lists: `commute` would make the two states equivalent, the bisimulation would make
+their `TriggerSync` answers equal. (A restart does not restore `lastTriggerSync`; the recovery
+theorems therefore have to be about `tmMachineQuiet`, the machine without the `TriggerSync` actions.) -/
+theorem tm_replaySafeUpTo_fails_sync_bookkeeping (r : Setoid C12.Machine) :
+    ¬ ReplaySafeUpTo tm4 r := fun hs => by
+  have h0 := (hs.commute w6 eA eB (by decide) (by decide) (by decide)).1
+  have h1 := (hs.bisim.step _ _ h0 .start).2
+  have h2 := (hs.bisim.step _ _ h1 (.precommit 5 0 1 (some 3))).2
+  have h3 := (hs.bisim.step _ _ h2 (.precommit 5 0 2 (some 3))).2
+  have h4 := (hs.bisim.step _ _ h3 (.precommit 5 0 3 (some 3))).1
+  have hp := tm_sync_bookkeeping_depends_on_order
+  have : syncProbe wab = syncProbe wba := h4
+  rw [hp.1, hp.2] at this
+  exact absurd this (by decide)
 
 /-- Why state EQUALITY is the wrong notion (and `ReplaySafeUpTo` has `≈`): a proposal from a
 non-proposer is rejected (no actions), yet the vote counter has a new, empty round entry. -/
